@@ -129,7 +129,7 @@ def run_config(ctx, config, counts):
 
 def run(ctx):
     counts = {"cells": 0, "types": set()}
-    for config in ("f64-all", "dec-all"):
+    for config in ("f64-all", "dec-all") + (("f64-nostd", "dec-nostd") if ctx.tier == "thorough" else ()):
         run_config(ctx, config, counts)
     ctx.floor("best-fit cells evaluated", counts["cells"], 600)
     ctx.floor("reference-unit result types", len(counts["types"]), 23 + 19)
